@@ -65,7 +65,8 @@ Concrete == {"Variable", "Sum", "CommonSubexpression", "Call"}
 NodeCls(b, s) == [base |-> b, chain |-> Shape(s), shape |-> s]
 HBases == IF Tier = "quick" THEN {"Expression", "Leaf", "Variable", "Sum", "Call"} ELSE Bases
 Pool ==
-    { NodeCls(b, s) : b \in HBases, s \in {1, 2, 3} }
+    { NodeCls(b, s) : b \in HBases, s \in {1, 2} }
+    \cup { NodeCls(b, 3) : b \in (IF Tier = "quick" THEN {"Expression", "Variable", "Sum"} ELSE Bases) }
     \cup { NodeCls(b, 0) : b \in HBases \cap Concrete }
     \cup { NodeCls(b, s) : b \in (IF Tier = "quick" THEN {"Expression", "Variable", "Sum"} ELSE Bases),
                            s \in {5, 6} }
@@ -159,14 +160,7 @@ ASSUME \E c, d \in Pool : SharesName(c, d) /\ c.base # d.base /\ c.shape = 2 /\ 
 ASSUME \A c \in Pool : c.chain = << >> => c.base \in Concrete
 
 \* ------------------------------------------------------------------ emission
-\* extra arguments by position in the history: all different, so that a memoising mapper's
-\* result cache (C04_Hist) is never consulted here
-HArgs == << AP0, AP1, AP2 >>
-\* how a history is replayed: mapper class x entry pattern x hook overridden
-HRuns == << [mapper |-> "plain", pat |-> << "call", "call", "call" >>, hookret |-> FALSE],
-            [mapper |-> "plain", pat |-> << "fallback", "call", "call" >>, hookret |-> TRUE],
-            [mapper |-> "plain", pat |-> << "call", "fallback", "call" >>, hookret |-> FALSE],
-            [mapper |-> "cached", pat |-> << "call", "call", "call" >>, hookret |-> TRUE] >>
+\* HArgs / HRuns (C04_Dispatch): the arguments by position and how a history is replayed
 ASSUME \A p \in Patterns : \E r \in 1..Len(HRuns) : HRuns[r].pat = p
 Emit == (Complete /\ ~stubs /\ pat = << "call", "call", "call" >> /\ MemoMode = "none") =>
     PrintT(ToJson([hist |-> [i \in 1..Len(hist) |->
